@@ -595,6 +595,11 @@ Proof.
       solve [ destruct hd; [discriminate|]; rewrite cnt_opt_some; cbn [cnt_opt]; lia ]
     | (* the iterator is valid *)
       solve [ exfalso; destruct (call_valid _ _ _ _ _ HI Hp) as [pre [q [suf [_ [E _]]]]]; congruence ]
+    | (* the client passes a copy of a pointer it holds in a slot *)
+      solve [ match goal with Hg : getslot _ _ = Some ?q, H : rc_inc (heap _) (pid ?q) = (_, _) |- _ =>
+                destruct (rc_inc_spec _ _ _ _ (Hsl _ _ Hg) H) as [-> Hd'] end;
+              first [ reflexivity
+                    | destruct hd; [discriminate|]; specialize (Hd' id); rewrite cnt_opt_some; cbn [cnt_opt]; lia ] ]
     ].
 Qed.
 
@@ -933,10 +938,12 @@ Proof.
   destruct l as [pr p sl hd]. unfold tstep, tstep_gen, set_hf in Hs. cbn [at_ prog slots held] in *.
   destruct p.
   - destruct pr as [|o r]; [left; reflexivity|exfalso].
-    destruct o as [so|po|[b|b]]; try discriminate.
+    destruct o as [so|po|[b|b|n b ty]]; try discriminate.
     + destruct (new_arg so); discriminate.
     + destruct (dec_opt (heap (gl s)) (slot {| prog := OL (Drop b) :: r; at_ := Idle; slots := sl; held := hd |} b)); discriminate.
     + destruct (slot {| prog := OL (ReadObj b) :: r; at_ := Idle; slots := sl; held := hd |} b); discriminate.
+    + destruct (slot {| prog := OL (AddFrom n b ty) :: r; at_ := Idle; slots := sl; held := hd |} b) as [q|]; [|discriminate].
+      destruct (rc_inc (heap (gl s)) (pid q)). discriminate.
   - right. split; [left; eauto|]. destruct (mtx (gl s)) as [a|] eqn:Hm.
     + exists a. repeat split; auto. eapply holder_enabled; eauto.
     + exfalso. destruct (apply_sop o _ _ _) as [[[? ?] ?] ?]. destruct (sop_rc _ _ _ _ _) as [[? ?] ?]. destruct (sop_wins _ _ _ _ _). discriminate.
@@ -1147,7 +1154,7 @@ Qed.
 (* H. bounded work: every schedule makes a bounded number of moves         *)
 (* ====================================================================== *)
 Definition is_ins (o : op) : bool :=
-  match o with OS (Add _ _) | OS (AddT _ _ _) | OS (Copy _ _) => true | _ => false end.
+  match o with OS (Add _ _) | OS (AddT _ _ _) | OS (Copy _ _) | OL (AddFrom _ _ _) => true | _ => false end.
 (* insertions a thread may still perform *)
 Definition pend (l : loc) : nat :=
   (length (filter is_ins (prog l)) + match at_ l with SLock o => if is_ins (OS o) then 1 else 0 | _ => 0 end)%nat.
@@ -1180,6 +1187,7 @@ Proof.
   all: try match goal with H : apply_sop _ _ _ _ = _ |- _ => pose proof (apply_sop_len _ _ _ _ _ _ _ _ H) as Q; cbn [is_ins] in Q; lia end.
   all: try match goal with |- context [del ?k ?m] => pose proof (del_len k m); lia end.
   all: try (destruct (is_ins _); cbn [length]; lia).
+  all: cbn [length]; lia.
 Qed.
 
 Lemma Inv2_step N : forall g ls t c l g' l' es,
